@@ -65,6 +65,18 @@ class Gen:
         if form == "const":
             m = self.marker()
             return "{ CONST_NAME } = %s()" % m, "const.name", m, "", []
+        if form in ("const_dbg", "const_disp"):
+            sg = "?" if form.endswith("dbg") else "%"
+            m = self.marker(sigil=sg)
+            return "{ CONST_NAME } = %s%s()" % (sg, m), "const.name", m, sg, []
+        if form in ("literal_dbg", "literal_disp"):
+            sg = "?" if form.endswith("dbg") else "%"
+            m = self.marker(sigil=sg)
+            return "\"lit name %d\" = %s%s()" % (idx, sg, m), "lit name %d" % idx, m, sg, []
+        if form in ("dotted_dbg", "dotted_disp"):
+            sg = "?" if form.endswith("dbg") else "%"
+            m = self.marker(sigil=sg)
+            return "a%d.b.c = %s%s()" % (idx, sg, m), "a%d.b.c" % idx, m, sg, []
         if form == "raw":
             m = self.marker()
             return "r#type = %s()" % m, "r#type", m, "", []   # stringify! keeps the r# prefix in this tree
@@ -155,9 +167,12 @@ class Gen:
                "#![allow(unused, clippy::all)]",
                "use tracing::Level;",
                "pub const CONST_NAME: &str = \"const.name\";",
+               # both marker types implement both traits, so that an expansion using the wrong wrapper still compiles and
+               # the sigil rule (not a compile error) reports it
                "#[derive(Debug)] pub struct Dbg(pub u32);",
-               "pub struct Disp(pub u32);",
+               "#[derive(Debug)] pub struct Disp(pub u32);",
                "impl core::fmt::Display for Disp { fn fmt(&self, f: &mut core::fmt::Formatter<'_>) -> core::fmt::Result { f.write_str(\"d\") } }",
+               "impl core::fmt::Display for Dbg { fn fmt(&self, f: &mut core::fmt::Formatter<'_>) -> core::fmt::Result { f.write_str(\"g\") } }",
                "#[inline(never)] pub fn keep<T>(_t: &T) {}",
                "#[inline(never)] pub fn keep_bool(_b: bool) {}"]
         for name, ty, body in self.markers:
@@ -179,6 +194,8 @@ FIELD_SETS = [
     ["kv", "empty", "kv"], ["kv_dbg", "dotted", "short", "literal", "kv_disp"], ["empty"],
 ]
 MSGS = ["none", "lit", "fmt"]
+ALL_FORMS = ["kv", "kv_dbg", "kv_disp", "dotted", "dotted_dbg", "dotted_disp", "literal", "literal_dbg", "literal_disp",
+             "const", "const_dbg", "const_disp", "raw", "short", "short_dbg", "short_disp", "empty"]
 
 
 def canonical(g):
@@ -194,6 +211,16 @@ def canonical(g):
             k += 1
         g.add("event", "event", "INFO", prefix, ["kv", "kv_dbg"], "lit", braces=True)
         g.add("event", "event", "WARN", prefix, ["kv"], "fmt", braces=True)
+    # every valueset!/fieldset! arm: each field form as the last field (no trailing comma), followed by another field,
+    # and followed by a message, in event! and span!
+    for i, form in enumerate(ALL_FORMS):
+        lvl = LEVELS[i % 5]
+        g.add("event", "event", lvl, [], [form], "none")
+        g.add("event", "event", lvl, [("target", "\"tgt::v\"")], [form, "kv"], "none")
+        g.add("event", "event", lvl, [], ["kv", form], "lit")
+        g.add("event", "event", lvl, [], [form], "fmt", braces=True)
+        g.add("span", "span", lvl, [], [form], "none")
+        g.add("span", "span", lvl, [("parent", "parent_span")], [form, "kv_dbg"], "none")
     # level shorthands
     for lvl in LEVELS:
         for prefix in EVENT_PREFIXES:
@@ -215,7 +242,7 @@ def canonical(g):
 
 
 def randomised(g, count):
-    forms = ["kv", "kv_dbg", "kv_disp", "dotted", "literal", "const", "raw", "short", "short_dbg", "short_disp", "empty"]
+    forms = ALL_FORMS
     for _ in range(count):
         kind = g.rng.choice(["event", "event", "span"])
         nf = g.rng.randint(0, 6)
@@ -224,9 +251,10 @@ def randomised(g, count):
         seen = set()
         fs2 = []
         for f in fs:
-            if f in ("const", "raw") and f in seen:
+            fam = "const" if f.startswith("const") else f
+            if fam in ("const", "raw") and fam in seen:
                 f = "kv"
-            seen.add(f)
+            seen.add(fam)
             fs2.append(f)
         lvl = g.rng.choice(LEVELS)
         if kind == "event":
